@@ -189,9 +189,49 @@ def expected_copy(w: mut.World, op, s0: Snap, plan=None):
     return None
 
 
+def refusal_reasons(w: mut.World, op, s0: Snap, plan=None):
+    """The documented reasons for refusing the copy operation `op` in the state s0 (by pointers; [] = the copy is legal):
+    a child of the target with the data_id of a source (this includes copying a node below its own parent), a deep copy
+    into the own branch, data_id= together with deep or different from the source's, `before=<node>` that is not a child
+    of the target, copy_to(add_self=False) of a node without children, a typed/plain mismatch."""
+    k = op[0]
+    why = []
+    if k in ("treecopy", "nodecopy"):
+        return why
+    ti, parent, sources, before = expected_copy(w, op, s0, plan)
+    if parent is None or s0.get(parent) is None:
+        return ["target"]
+    sti = {"addnode": 3, "addtree": 3, "copyto": 1, "shortnode": 4, "shorttree": 4}[k]
+    if isinstance(w.trees[ti], TypedTree) != isinstance(w.trees[op[sti]], TypedTree):
+        why.append("typed/plain")
+    if k == "copyto" and not op[5] and not sources:
+        why.append("no children")
+    if k == "copyto" and not op[5] and op[6] is not None:
+        why.append("before with add_self=False")
+    if k == "addnode" and op[5] is not None:
+        r = s0.get(sources[0][0])
+        if sources[0][1] or r is None or not same_did(op[5], r.did):
+            why.append("data_id=")
+    pch = s0.get(parent).ch
+    for S, deep, _ in sources:
+        r = s0.get(S)
+        if r is None:
+            why.append("source")
+            continue
+        if any(same_did(s0.get(c).did, r.did) for c in pch):
+            why.append("sibling with the same data_id")
+        if deep and any(x is parent for x in s0.subtree(S)):
+            why.append("deep copy into the own branch")
+    if isinstance(before, dict) and sources:
+        bn = w.raw(before["n"])
+        if not any(c is bn for c in pch):
+            why.append("before is not a child of the target")
+    return why
+
+
 def copy_oracle(w: mut.World, step, s0: Snap, s1: Snap):
-    """-> (message or None, info dict).  Only for successful copy operations."""
-    op, res = step["op"], step["res"]
+    """-> (message or None, info dict)."""
+    op, res = step.get("nop") or step["op"], step["res"]
     info = {}
     if op[0] not in COPY_OPS or (res[0] == 1 and res[1] == mut.EMODEL):
         return None, info
@@ -201,6 +241,12 @@ def copy_oracle(w: mut.World, step, s0: Snap, s1: Snap):
             d = rec_diff(r0, s1.rec.get(nid_))
             if d:
                 return f"copy: the failed {op[0]} changed {name_of(w, r0.node)}: {d[0]}", info
+        # ... and a refusal needs a documented reason: a legal copy must be made
+        if res[1] in mut.LIB_ERRORS or res[1] in (6, 7):
+            why = refusal_reasons(w, op, s0, step.get("plan"))
+            if not why:
+                return (f"copy: a documented-valid {step['op'][0]} was refused ({H.ERR_NAMES.get(res[1], res[1])}): no sibling with "
+                        f"that data_id, not a deep copy into the own branch, `before` is a child of the target"), info
         return None, info
     exp = expected_copy(w, op, s0, step.get("plan"))
     ti, parent, sources, before = exp
@@ -343,7 +389,7 @@ def local_node(op):
 
 def independence_oracle(w: mut.World, step, s0: Snap, s1: Snap, links):
     """`links`: [(source top object, copy top object)] of earlier same-tree copies."""
-    op = step["op"]
+    op = step.get("nop") or step["op"]
     ti = op_tree(op)
     # (i) every tree the operation does not work on is untouched, pointer by pointer
     for tj, root in enumerate(s0.roots):
@@ -406,8 +452,73 @@ def shortcut_plan(w: mut.World, op):
     return nn, p, before, (kind_of(nn) if typed else None)
 
 
+# copy calls with arguments OMITTED (the defaults of the API: Node.copy_to(target, *, add_self=True, before=None, deep=False),
+# Tree.copy_to(target, *, deep=True), Node.copy(*, add_self=True)); rendered for the model with the documented defaults
+#     ["copyto_d", sti, src, ti, target, ADD_SELF|null, BEFORE|"omit", DEEP|null]     null / "omit" = not passed
+#     ["nodecopy_d", sti, src]
+def norm_op(op):
+    """the equivalent op with every argument spelled out (None for ops that need no normalisation)"""
+    if op[0] == "copyto_d":
+        _, sti, src, ti, target, add_self, before, deep = op
+        if src == 0:
+            return ["copyto", sti, 0, ti, target, False, None, True if deep is None else deep]
+        return ["copyto", sti, src, ti, target, True if add_self is None else add_self, None if before == "omit" else before,
+                False if deep is None else deep]
+    if op[0] == "nodecopy_d":
+        return ["nodecopy", op[1], op[2], True]
+    return None
+
+
+def execute_defaults(w: mut.World, op):
+    nop = norm_op(op)
+    if op[0] == "nodecopy_d":
+        sn = w.live_node(op[2], op[1])
+        if sn is None:
+            raise mut.NotLive()
+
+        def thunk():
+            r = sn.copy()
+            w.trees.append(r)
+            w.calcs.append(None)
+            return [len(w.trees) - 1]
+
+        return thunk, f"(ONodeCopy {op[1]} {op[2]} true)", False
+    _, sti, src, ti, target, add_self, before, deep = op
+    st, tn = w.tree(sti), w.parent_ref(ti, target)
+    if st is None or tn is None:
+        raise mut.NotLive()
+    tgt = w.trees[ti] if target == 0 else tn
+    kw = {}
+    if deep is not None:
+        kw["deep"] = deep
+    if src == 0:
+        if add_self is not None or before != "omit":
+            raise mut.NotLive()
+        obj = st
+    else:
+        obj = w.live_node(src, sti)
+        if obj is None:
+            raise mut.NotLive()
+        if add_self is not None:
+            kw["add_self"] = add_self
+        if before != "omit":
+            bv, ok = mut._bef(w, before)
+            if not ok:
+                raise mut.NotLive()
+            kw["before"] = bv
+    coq = (f"(OCopyTo {nop[1]} {nop[2]} {nop[3]} {nop[4]} {H.coq_bool(nop[5])} {mut.coq_before(nop[6])} {H.coq_bool(nop[7])})")
+
+    def thunk():
+        r = obj.copy_to(tgt, **kw)
+        return [] if r is None else [w.rel(r)]
+
+    return thunk, coq, False
+
+
 def execute7(w: mut.World, op):
     """like mut.execute for the ops of this module; falls back to mut.execute"""
+    if op[0] in ("copyto_d", "nodecopy_d"):
+        return execute_defaults(w, op)
     if op[0] not in ("shortnode", "shorttree"):
         return mut.execute(w, op)
     how = op[3]
@@ -489,7 +600,7 @@ def replay7(hist, *, check_from=0) -> mut.Run:
         # model can never produce, instead of a forest of hundreds of nodes per alternative (minutes of vm_compute)
         after = [[-3]] if runaway else w.obs()
         step = dict(op=op, res=res, before=before, after=after, new_ids=list(range(alloc0 + 1, w.allocated() + 1)),
-                    new_trees=list(range(ntrees0, len(w.trees))), coq=coq, plan=plan)
+                    new_trees=list(range(ntrees0, len(w.trees))), coq=coq, plan=plan, nop=norm_op(op))
         run.obs.append([res, after])
         run.steps.append(step)
         kind = op[0] + (":" + H.ERR_NAMES.get(res[1], str(res[1])) if res[0] else "")
@@ -526,7 +637,7 @@ def shrink7(hist):
     for cut in (n // 2, n - 1):
         if 0 < cut < n:
             yield dict(univ=hist["univ"], ops=ops[:cut])
-    special = any(o[0] in ("shortnode", "shorttree") for o in ops)
+    special = any(o[0] in ("shortnode", "shorttree", "copyto_d", "nodecopy_d") for o in ops)
     if not special:
         yield from mut.shrink_candidates(dict(univ=hist["univ"], ops=ops))
         return
@@ -733,6 +844,75 @@ def gen_groups(nmax, *, typed=(False, True), labelings=("mixed", "equal"), shape
                                label=f"{lname}/{'typed' if ty else 'plain'}" + (f"/reordered-{ro}" if ro else ""))
 
 
+def default_arg_alternatives(n, typed):
+    """copy calls with arguments OMITTED, into the other tree and - the legal shallow ones included - to every place of
+    the source tree itself (below a copied child, below a descendant of one)"""
+    x, z, y = n + 1, n + 2, n + 3
+    srcs = list(range(1, n + 1))
+    out = []
+    for src in srcs:
+        out.append(["nodecopy_d", 0, src])
+        for p in [0] + srcs:                                   # same tree
+            out.append(["copyto_d", 0, src, 0, p, False, "omit", None])     # children of src, shallow by default
+            out.append(["copyto_d", 0, src, 0, p, None, "omit", None])      # node.copy_to(target)
+        for tgt in (0, x, z):
+            out.append(["copyto_d", 0, src, 1, tgt, None, "omit", None])
+            out.append(["copyto_d", 0, src, 1, tgt, False, "omit", None])
+            out.append(["copyto_d", 0, src, 1, tgt, None, "omit", True])
+        out.append(["copyto_d", 0, src, 1, 0, None, {"n": y}, None])
+        out.append(["copyto_d", 0, src, 1, 0, None, True, None])
+    for tgt in (0, x, z):
+        out.append(["copyto_d", 0, 0, 1, tgt, None, "omit", None])           # tree.copy_to(target)
+    for p in srcs:
+        out.append(["copyto_d", 0, 0, 0, p, None, "omit", None])
+        out.append(["copyto_d", 0, 0, 0, p, None, "omit", False])
+        out.append(["addnode", 0, p, 0, 1, None, None, None, None])            # add_child(node): deep omitted
+        out.append(["addtree", 1, x, 0, None, None])
+    return out
+
+
+def gen_default_groups(nmax=3, typed=(False, True)):
+    for n in range(2, nmax + 1):
+        for shape in H.forests(n):
+            for ty in typed:
+                setup, n_ = source_setup(shape, "mixed", ty)
+                if constructible(SRC_UNIV, setup):
+                    yield dict(univ=SRC_UNIV, setup=setup, alts=default_arg_alternatives(n_, ty), n=n_,
+                               label=f"defaults/{'typed' if ty else 'plain'}")
+
+
+def gen_versioned_groups(nmax=3, typed=(False, True)):
+    """The target holds ANOTHER object under the data_ids of the source: tree 2 = Tree.copy() of the source, then every node of
+    the copy gets a new (equal-comparing, distinct) data object under its old data_id (set_data(new, data_id=same,
+    with_clones=True)); then nodes / branches / the whole source tree are copied from tree 0 INTO tree 2.
+    A copy must reference the data object of its SOURCE."""
+    for n in range(1, nmax + 1):
+        for shape in H.forests(n):
+            for ty in typed:
+                setup, n_ = source_setup(shape, "equal", ty)
+                cp = list(range(n_ + 4, 2 * n_ + 4))                     # the nodes of the copy, pre-order
+                setup = setup + [["treecopy", 0]]
+                for i, c in enumerate(cp):
+                    old = 1 if i % 2 else 2
+                    setup.append(["set_data", 2, c, 2 if old == 1 else 1, f"k{i}", True])
+                if not constructible(SRC_UNIV, setup):
+                    continue
+                alts = []
+                srcs = list(range(1, n_ + 1))
+                for src in srcs:
+                    for p in cp:
+                        alts.append(["addnode", 2, p, 0, src, None, None, None, None])
+                        alts.append(["addnode", 2, p, 0, src, None, None, True, True])
+                        alts.append(["copyto", 0, src, 2, p, True, None, True])
+                        alts.append(["copyto", 0, src, 2, p, False, None, False])
+                        alts.append(["copyto_d", 0, src, 2, p, None, "omit", None])
+                for p in cp:
+                    alts.append(["addtree", 2, p, 0, None, None])
+                    alts.append(["addtree", 2, p, 0, True, False])
+                    alts.append(["copyto_d", 0, 0, 2, p, None, "omit", None])
+                yield dict(univ=SRC_UNIV, setup=setup, alts=alts, n=n_, label=f"versioned-target/{'typed' if ty else 'plain'}")
+
+
 def _kinds(nodes, typed, c=None):
     c = c if c is not None else [0]
     out = []
@@ -774,6 +954,18 @@ META_EDITS = [["set", "m", 7], ["set", "m", None], ["set", "j", "v"], ["clear", 
 
 class Gen7(mut.Gen):
     """source -> one copy -> random mutation history on source or copy (stateful: looks at the live trees)."""
+
+    def do(self, op):
+        self.ops.append(op)
+        _old = sys.getrecursionlimit()
+        sys.setrecursionlimit(mut.OP_RECURSION_LIMIT)
+        try:
+            thunk, _, _ = execute7(self.w, op)
+            thunk()
+        except Exception:
+            pass
+        finally:
+            sys.setrecursionlimit(_old)
 
     def branch_ids(self, tops):
         """relative ids of the live nodes below (and including) `tops`; safe on a corrupted (cyclic) structure"""
@@ -899,6 +1091,15 @@ def gen_history(rng, setup, copy_op, n_tail, univ=None, reorder=0):
                 g.tail_op(src_tops, 0)
         except Exception:
             pass
+    # the operation again, after the mutations: a copy must reflect the source as it is NOW
+    again = [["treecopy", 0]]
+    live_tops = [t for t in src_tops if g.w.live_node(t, 0) is not None]
+    if live_tops:
+        again.append(["nodecopy_d", 0, rng.choice(live_tops)])
+    if cti != 0 and cti < len(g.w.trees) and live_tops:
+        again.append(["copyto_d", 0, rng.choice(live_tops), cti, 0, None, "omit", rng.choice([None, True])])
+    for op in again[: (2 if len(g.w.trees) < 4 else 1)] if rng.random() < 0.8 else []:
+        g.do(op)
     return {"univ": g.univ, "ops": g.ops}, icopy
 
 
